@@ -172,8 +172,12 @@ Section each_doc_eq.
                                    ed_failed_policies st1 = ed_failed_policies st ++ (if fails d then [d] else [])).
         { unfold body. cbn [xseqc xbind xlift ed_coll ed_failed_policies ed_cur ed_doc ed_new_doc ed_storage ed_msg].
           unfold fails, proc. rewrite map_app. cbn [map]. fold proc.
+          (* the two logging calls read doc['uid'] *)
+          unfold dget at 1. rewrite Huid.
+          cbn [xseqc xbind xlift ed_coll ed_failed_policies ed_cur ed_doc ed_new_doc ed_storage ed_msg].
           destruct (f d) as [d'|e] eqn:E; cbn [xseqc xbind xlift ed_new_doc ed_coll ed_doc ed_failed_policies].
           - unfold dget. rewrite (f_uid _ _ Pd E), Huid.
+            cbn [xseqc xbind xlift ed_new_doc ed_coll ed_doc ed_failed_policies]. rewrite ?Huid.
             cbn [xseqc xbind xlift ed_new_doc ed_coll ed_doc ed_failed_policies].
             eexists. split; [reflexivity|]. cbn [ed_coll ed_failed_policies]. rewrite Hc, app_nil_r.
             split; [|reflexivity]. rewrite <- app_assoc. cbn [app]. apply replace_here.
